@@ -405,4 +405,25 @@ def expected_tb_naf8_SelectInto : List String :=
 
 theorem tb_naf8_SelectInto_as_modelled : Generated.Skeletons.tb_naf8_SelectInto = expected_tb_naf8_SelectInto := rfl
 
+/-! `SetBytesWithClamping` (`Model/Clamp.lean`): copy into a zeroed 64-byte buffer, `&= 248`, `&= 63`, `|= 64`, `scReduce` -/
+/-- ed25519/internal/edwards25519: Scalar.SetBytesWithClamping -/
+def expected_sc_SetBytesWithClamping : List String :=
+  ["if len(x) != 32 {",
+   "stmt panic(\"edwards25519: invalid SetBytesWithClamping input length\")",
+   "call panic",
+   "}",
+   "stmt var wideBytes [64]byte",
+   "stmt copy(wideBytes[:], x[:])",
+   "stmt wideBytes[0] &= 248",
+   "store wideBytes[0]",
+   "stmt wideBytes[31] &= 63",
+   "store wideBytes[31]",
+   "stmt wideBytes[31] |= 64",
+   "store wideBytes[31]",
+   "stmt scReduce(&s.s, &wideBytes)",
+   "call scReduce",
+   "return value: return s"]
+
+theorem sc_SetBytesWithClamping_as_modelled : Generated.Skeletons.sc_SetBytesWithClamping = expected_sc_SetBytesWithClamping := rfl
+
 end PatVerif.Proofs.SkelScalarMult
